@@ -8,7 +8,7 @@ use std::{
 use crate::{
     CompileOptions, TypedExpr, TypedFnDef, TypedPattern, TypedProgram, TypedStmt,
     ast::{
-        Accessor, BuiltInFnCall, ConstExpr, ConstExprEnum, EnumDef, Expr, ExprEnum, Op, Pattern,
+        Accessor, BuiltInFnCall, ConstExpr, ConstExprEnum, EnumDef, ExprEnum, Op, Pattern,
         PatternEnum, StmtEnum, StructDef, Type, UnaryOp, VariantExprEnum,
     },
     circuit::{Circuit, CircuitBuilder, CircuitBuilderOptions, GateIndex, PanicReason, USIZE_BITS},
@@ -920,23 +920,28 @@ impl TypedExpr {
                             continue;
                         }
                         if n < bits {
-                            let mut expr = y.clone();
+                            // y * n as repeated addition; y is compiled (and thus evaluated)
+                            // only once
+                            let y = y.compile(prg, env, circuit);
+                            let mut sum = y.clone();
                             for _ in 0..n - 1 {
-                                expr = Box::new(Expr {
-                                    inner: ExprEnum::Op(Op::Add, expr, y.clone()),
-                                    meta,
-                                    ty: ty.clone(),
-                                });
+                                let (s, carry, carry_prev) =
+                                    circuit.push_addition_circuit(&sum, &y);
+                                let overflow = if is_signed(ty) {
+                                    circuit.push_xor(carry, carry_prev)
+                                } else {
+                                    carry
+                                };
+                                circuit.push_panic_if(overflow, PanicReason::Overflow, meta);
+                                sum = s;
                             }
                             if is_neg {
-                                return Expr {
-                                    inner: ExprEnum::UnaryOp(UnaryOp::Neg, expr),
-                                    meta,
-                                    ty: ty.clone(),
-                                }
-                                .compile(prg, env, circuit);
+                                let neg = circuit.push_negation_circuit(&sum);
+                                let overflow = circuit.push_and(sum[0], neg[0]);
+                                circuit.push_panic_if(overflow, PanicReason::Overflow, meta);
+                                return neg;
                             } else {
-                                return expr.compile(prg, env, circuit);
+                                return sum;
                             }
                         }
                     }
